@@ -174,7 +174,7 @@ def run_property(pid, tier, repo, seed):
         if f['tag'] in seen:
             continue
         seen.add(f['tag'])
-        body = [f"property: {pid}", f"failed obligation: {f['tag']}", f"back end: {f['backend']} (unit {f['unit']})",
+        body = [f"property: {pid}", f"tier: {tier}", f"failed obligation: {f['tag']}", f"back end: {f['backend']} (unit {f['unit']})",
                 f"function: {f.get('fn')}", f"source location: {f.get('where')}", f"verifier message: {f['detail']}", '',
                 'replay: python3 /verif/check.py --replay <this file>', '', '---- verifier output ----', f.get('output') or '']
         pb = f.get('playback')
@@ -228,6 +228,7 @@ def replay(path):
     pid, tag = m.group(1), o.group(1)
     print(f'replaying obligation {tag} of {pid}: re-running the check on the current tree')
     rc = main_check(pid, 'thorough' if 'tier: thorough' in txt else 'quick', os.environ.get('VERIF_REPO', '/repo'))
+    print(f'replay of {tag}: ' + ('the obligation (or another one of the property) still fails' if rc == 1 else 'no violation on the current tree' if rc == 0 else 'undecided'))
     return rc
 
 
